@@ -326,12 +326,13 @@ DecodeInverts == LET d == Decode(Canon(ev)) IN d.ok /\ SameFields(d, ev)
 
 \* the canonical text is JSON without white space: no raw control character, and every
 \* code point of a string is spelt with 1, 2 or 6 characters
-CanonIsClean == /\ \A i \in 1..Len(Canon(ev)) : Canon(ev)[i] >= 32
-                /\ \A c \in CharsOf(ev) : Len(Esc(c)) = (IF c \in ShortSet THEN 2 ELSE IF c < 32 THEN 6 ELSE 1)
-                /\ \A c \in CharsOf(ev) : (c = 127 \/ c = 47 \/ c >= 128) => Esc(c) = <<c>>
+CanonIsClean == LET c == Canon(ev) IN
+                /\ \A i \in 1..Len(c) : c[i] >= 32
+                /\ \A x \in CharsOf(ev) : Len(Esc(x)) = (IF x \in ShortSet THEN 2 ELSE IF x < 32 THEN 6 ELSE 1)
+                /\ \A x \in CharsOf(ev) : (x = 127 \/ x = 47 \/ x >= 128) => Esc(x) = <<x>>
 
 \* a non-canonical spelling is a different text exactly when it touches the event
-AltSound == tam = "none" => \A st \in Styles : (CanonAlt(st, ev) # Canon(ev)) <=> Touches(st, ev)
+AltSound == tam = "none" => LET c == Canon(ev) IN \A st \in Styles : (CanonAlt(st, ev) # c) <=> Touches(st, ev)
 
 (* ------------------------------------ emission -------------------------------- *)
 StrSize(e) == Len(e.content) + Cardinality(Pos(e.tags))
